@@ -189,11 +189,76 @@ Section TextParser.
             end
         end
     end.
+
+  (* the values already built (top of the stack first) at the place where run_text fails; [] when it does not fail.
+     measured/parsing.py embeds its transformer in the parser, so the callbacks of the reductions made before a syntax
+     error have already run: Model/TextParse.v needs to know which terms those were *)
+  (* the value stack at the moment feed_token finds no action: the reductions the lookahead triggered before that have
+     been made (their callbacks have run) *)
+  Fixpoint rejected_vals (fuel : nat) (stack : list nat) (vals : list tree) (ty : positive) : list tree :=
+    match fuel with
+    | O => []
+    | S f =>
+        match stack with
+        | [] => []
+        | st :: _ =>
+            match lookup (state_row T st) ty with
+            | None => vals
+            | Some (Shift _) => []
+            | Some (Reduce r) =>
+                match nth_error rules r with
+                | None => []
+                | Some ru =>
+                    let n := r_len ru in
+                    let args := rev (firstn n vals) in
+                    let stack' := skipn n stack in
+                    let vals' := skipn n vals in
+                    match stack' with
+                    | [] => []
+                    | top :: _ =>
+                        match lookup (state_row T top) (r_origin ru) with
+                        | Some (Shift ns) => rejected_vals f (ns :: stack') (build infos filtered r args :: vals') ty
+                        | _ => []
+                        end
+                    end
+                end
+            end
+        end
+    end.
+
+  Fixpoint failure_stack (fuel : nat) (stack : list nat) (vals : list tree) (s : text) : list tree :=
+    match fuel with
+    | O => []
+    | S f =>
+        match stack with
+        | [] => []
+        | st :: _ =>
+            let acc := accepts terminals T st in
+            match scan order ignore acc s with
+            | None => vals
+            | Some None =>
+                match feed tree (build infos filtered) rules T fuel stack vals end_sym (TInline []) true with
+                | Rejected _ => rejected_vals fuel stack vals end_sym
+                | _ => []
+                end
+            | Some (Some (tok, rest)) =>
+                match feed tree (build infos filtered) rules T fuel stack vals (tok_type tok) (tok_tree tok) false with
+                | Shifted _ stack' vals' => failure_stack f stack' vals' rest
+                | Rejected _ => rejected_vals fuel stack vals (tok_type tok)
+                | _ => []
+                end
+            end
+        end
+    end.
 End TextParser.
 
 Definition parse_text (order : list terminal) (ignore : list positive) (rules : list rule) (infos : list rinfo)
   (filtered terminals : list positive) (end_sym : positive) (T : table) (s : text) : presult :=
   run_text order ignore rules infos filtered terminals end_sym T (4 * length s + 60) [t_start T] [] s.
+
+Definition parse_failure_stack (order : list terminal) (ignore : list positive) (rules : list rule) (infos : list rinfo)
+  (filtered terminals : list positive) (end_sym : positive) (T : table) (s : text) : list tree :=
+  failure_stack order ignore rules infos filtered terminals end_sym T (4 * length s + 60) [t_start T] [] s.
 
 Fixpoint text_eqb (a b : text) : bool :=
   match a, b with
